@@ -366,6 +366,103 @@ def rule_y6(ctx, funcs: List[Func]) -> None:
             ctx.finding("C20-Y6", "%s.%s:text-rewrite:%s" % (f.qualname.split(".")[-2], f.name, unparse(c.func).split(".")[-1]), f.loc(c), "the standardiser rewrites the SMILES as text through %s: un-bracketing or editing tokens changes which hydrogens RDKit assumes ([O] radical becomes O with an H), so atoms are not conserved" % why)
 
 
+def rule_y7(ctx, funcs: List[Func]) -> None:
+    """Rewrite-until-stable: the loop that re-queries the groups after every rewrite must run until nothing changes.  A
+    bounded `for _ in range(B)` is such a loop only if B grows with the input (every rewrite removes one group of the
+    SMILES it was bounded for); a fixed or configured cap returns a partly standardised molecule for inputs with more
+    groups, and a second application then rewrites the rest."""
+    ctx.rule("C20-Y7", "the rewrite-until-stable loop is not capped by a bound that is independent of the input", 0)
+    n = 0
+    for f in funcs:
+        if len(f.params) < 2:
+            continue
+        smi = f.params[1]
+        for loop in [x for x in own_nodes(f.node) if isinstance(x, ast.For)]:
+            rebinds = [a for a in ast.walk(loop) if isinstance(a, ast.Assign) and any(isinstance(t, ast.Name) and t.id == smi for t in a.targets)]
+            requery = [c for c in ast.walk(loop) if isinstance(c, ast.Call) and any(isinstance(a, ast.Name) and a.id == smi for a in c.args) and isinstance(c.func, ast.Attribute) and c.func.attr in ("get", "query", "find", "match")]
+            if not (rebinds and requery):
+                continue
+            n += 1
+            it = loop.iter
+            if not (isinstance(it, ast.Call) and isinstance(it.func, ast.Name) and it.func.id == "range" and it.args):
+                ctx.instance("C20-Y7", "%s: rewrite loop over %s (not a counted loop)" % (f.name, unparse(it)[:40]), f.loc(loop), ok=True)
+                continue
+            bound = it.args[-1] if len(it.args) <= 2 else it.args[1]
+            seen, work = set(), [bound]
+            depends = False
+            while work:
+                e = work.pop()
+                for nm in names_in(e):
+                    if nm == smi:
+                        depends = True
+                    if nm in seen:
+                        continue
+                    seen.add(nm)
+                    for _st, v, _i in assignments_to(f, nm):
+                        work.append(v)
+            ctx.instance("C20-Y7", "%s: rewrite loop bounded by %s (depends on the input SMILES: %s)" % (f.name, unparse(bound)[:40], depends), f.loc(loop), ok=depends)
+            if not depends:
+                ctx.finding("C20-Y7", "%s.%s:fixed-rewrite-cap" % (f.qualname.split(".")[-2], f.name), f.loc(loop), "the rewrite-until-stable loop stops after %s passes whatever the input: a molecule or mixture with more rewritable groups is returned partly standardised, and standardising the result again changes it" % unparse(bound)[:40])
+    if n == 0:
+        ctx.note("C20-Y7: no counted rewrite-until-stable loop on this tree (a loop that rebinds the SMILES and queries its groups again); Y2/Y5 decide the other loop shapes")
+
+
+def rule_y8(ctx, funcs: List[Func]) -> None:
+    """Hydrogens moved by hand.  Where a rewrite lowers the explicit hydrogen count of one atom, the matching increase on
+    another atom must happen under the same conditions.  In particular it must not be conditional on the *current explicit
+    count* of the receiving atom: a bracket atom without hydrogens ([C:1]) has count 0 and no implicit hydrogens, so it
+    would never receive the hydrogen and the molecule loses an atom."""
+    ctx.rule("C20-Y8", "hand-made hydrogen transfers: the increase is not conditional on the receiver's current hydrogen count", 2)
+    COUNT_READS = ("GetNumExplicitHs", "GetTotalNumHs", "GetNumImplicitHs")
+    for f in funcs:
+        edits = [c for c in own_nodes(f.node) if isinstance(c, ast.Call) and isinstance(c.func, ast.Attribute) and c.func.attr == "SetNumExplicitHs" and c.args]
+        if not edits:
+            continue
+        cfg = CFG(f.node)
+
+        def count_guards(c):
+            out = []
+            nid = cfg.node_of(c)
+            for cond, pol in cfg.guards(nid) if nid is not None else []:
+                if any(isinstance(x, ast.Call) and isinstance(x.func, ast.Attribute) and x.func.attr in COUNT_READS for x in ast.walk(cond)):
+                    out.append(("" if pol else "not ") + unparse(cond))
+            return out
+
+        def may_raise(c):
+            a = c.args[0]
+            if isinstance(a, ast.Constant):
+                return isinstance(a.value, int) and a.value > 0
+            return any(isinstance(x, ast.BinOp) and isinstance(x.op, ast.Add) and not (isinstance(x.right, ast.Constant) and isinstance(x.right.value, int) and x.right.value <= 0) for x in ast.walk(a))
+
+        raising = [c for c in edits if may_raise(c)]
+        # an increase that is free of any hydrogen-count condition serves the receivers that have none
+        free_raising = [c for c in raising if not count_guards(c)]
+        for c in edits:
+            g = count_guards(c)
+            bad = c in raising and bool(g) and not free_raising
+            ctx.instance("C20-Y8", "%s: %s under hydrogen-count condition(s) %s" % (f.name, unparse(c)[:50], g or "none"), f.loc(c), ok=not bad)
+            if bad:
+                ctx.finding("C20-Y8", "%s.%s:conditional-hydrogen-transfer" % (f.qualname.split(".")[-2], f.name), f.loc(c), "%s adds the moved hydrogen (%s) only if %s: a receiving bracket atom without hydrogens has count 0 and no implicit hydrogens, never gets it, and the rewritten molecule is one H short" % (f.name, unparse(c)[:50], " and ".join(g)))
+
+
+def rule_y9(ctx, funcs: List[Func]) -> None:
+    """A rewrite that changes bond orders (RemoveBond + AddBond on an EditableMol) changes the valence left for
+    hydrogens on the atoms involved.  RDKit recomputes implicit hydrogens only for atoms written without brackets; an
+    atom written in brackets (atom-mapped, isotope, charge) keeps its explicit count.  A rewrite that never touches the
+    explicit hydrogen counts therefore produces a molecule with one hydrogen too few or too many whenever such an atom
+    takes part and sanitisation still succeeds (a carbon that should gain a hydrogen becomes a radical)."""
+    ctx.rule("C20-Y9", "every bond-order rewrite also keeps the hydrogen count of atoms without implicit hydrogens", 2)
+    for f in funcs:
+        adds = [c for c in own_nodes(f.node) if isinstance(c, ast.Call) and isinstance(c.func, ast.Attribute) and c.func.attr == "AddBond"]
+        removes = [c for c in own_nodes(f.node) if isinstance(c, ast.Call) and isinstance(c.func, ast.Attribute) and c.func.attr == "RemoveBond"]
+        if not (adds and removes):
+            continue
+        book = [c for c in own_nodes(f.node) if isinstance(c, ast.Call) and isinstance(c.func, ast.Attribute) and c.func.attr in ("SetNumExplicitHs", "SetNoImplicit")]
+        ctx.instance("C20-Y9", "%s: %d bond edit(s), %d explicit-hydrogen adjustment(s)" % (f.name, len(adds) + len(removes), len(book)), f.loc(adds[0]), ok=bool(book))
+        if not book:
+            ctx.finding("C20-Y9", "%s.%s:no-hydrogen-bookkeeping" % (f.qualname.split(".")[-2], f.name), f.loc(adds[0]), "%s changes bond orders but never adjusts explicit hydrogen counts: for an atom written in brackets (no implicit hydrogens) the rewritten molecule has a different number of hydrogens than the input" % f.name)
+
+
 def check(ctx) -> None:
     prog = ctx.prog
     cls = prog.cls(CLS)
@@ -379,6 +476,9 @@ def check(ctx) -> None:
         rule_y4(ctx, funcs)
         rule_y5(ctx, funcs)
         rule_y6(ctx, funcs)
+        rule_y7(ctx, funcs)
+        rule_y8(ctx, funcs)
+        rule_y9(ctx, funcs)
     else:
         rule_y1(ctx, funcs)
         rule_y2(ctx, funcs)
@@ -386,3 +486,6 @@ def check(ctx) -> None:
         rule_y4(ctx, funcs)
         rule_y5(ctx, funcs)
         rule_y6(ctx, funcs)
+        rule_y7(ctx, funcs)
+        rule_y8(ctx, funcs)
+        rule_y9(ctx, funcs)
